@@ -393,6 +393,62 @@ pub fn run(ctx: &Ctx) {
         sampled += s_;
         prim_calls += c;
     }
+    // payload types with a non-empty SUFFIX ("v4x.local..."): the suffix is part of the authenticated header
+    {
+        let mut m = M::new(&ctx.model);
+        let mut g = SplitMix64::new(ctx.seed ^ 0xC02C02);
+        for b in &bs {
+            let kps = tok::keypairs(b, &mut g, 1);
+            for purpose in ["local", "public"] {
+                let (sealk, unsealk) = if purpose == "local" { let k = g.bytes(32); (k.clone(), k) } else { (kps[0].sk.clone(), kps[0].pk.clone()) };
+                let msg = content(&mut g, 21);
+                let a: Vec<u8> = if b.aad { b"ia".to_vec() } else { vec![] };
+                let replay = json!({"backend": b.name, "purpose": purpose, "fault": "suffix", "key": hex::encode(&unsealk), "m": hex::encode(&msg)});
+                rep.evaluations += 4;
+                // control: a suffixed token round-trips under its own type
+                let tx = match (b.seal_x)(purpose, &sealk, &msg, b"f", &a) { Ok(t) => t, Err(e) => { rep.notes.push(format!("{} {purpose}: seal with suffix failed: {e}", b.name)); continue; } };
+                match (b.unseal_x)(purpose, &unsealk, &tx, &a) {
+                    Ok((m2, _)) if m2 == msg => {}
+                    other => { rep.disagreement(&format!("c02.{}.{purpose}.suffix-control", b.name), format!("suffixed token does not round-trip: {:?}", other.map(|x| x.0.len())), replay.clone()); continue; }
+                }
+                let hx = format!("{}x.{purpose}.", b.ver);
+                let h0 = format!("{}.{purpose}.", b.ver);
+                if !tx.starts_with(&hx) {
+                    rep.disagreement(&format!("c02.{}.{purpose}.suffix-header", b.name), format!("suffixed token does not start with {hx}: {tx}"), replay.clone());
+                    continue;
+                }
+                // 1. drop the suffix from the header: the plain type must reject it
+                let dropped = format!("{h0}{}", &tx[hx.len()..]);
+                let r = if purpose == "local" { (b.local_decrypt)(&unsealk, &dropped, &a, false) } else { (b.public_verify)(&unsealk, &dropped, &a, false) };
+                if r.is_ok() {
+                    rep.violation(&format!("c02.{}.{purpose}.accepted.suffix-dropped", b.name), format!("{} {purpose}: a token sealed for a payload type with suffix \"x\" is accepted as the plain type after rewriting the header {hx} -> {h0}", b.name), json!({"backend": b.name, "purpose": purpose, "fault": "suffix-dropped", "key": hex::encode(&unsealk), "text": dropped, "aad": hex::encode(&a)}));
+                }
+                // 2. add the suffix to a plain token: the suffixed type must reject it
+                let t0 = if purpose == "local" { (b.local_encrypt)(&sealk, &msg, b"f", &a, SealVia::Seal) } else { (b.public_sign)(&sealk, &msg, b"f", &a, SealVia::Seal) };
+                if let Ok(t0) = t0 {
+                    let added = format!("{hx}{}", &t0[h0.len()..]);
+                    if (b.unseal_x)(purpose, &unsealk, &added, &a).is_ok() {
+                        rep.violation(&format!("c02.{}.{purpose}.accepted.suffix-added", b.name), format!("{} {purpose}: a plain token is accepted as the suffixed payload type after rewriting the header {h0} -> {hx}", b.name), json!({"backend": b.name, "purpose": purpose, "fault": "suffix-added", "key": hex::encode(&unsealk), "text": added, "aad": hex::encode(&a)}));
+                    }
+                }
+                // 3. the model with enc = "x" agrees on the suffixed token
+                if let Some((p, ft)) = lab::token_parts(&tx.replacen("x.", ".", 1)) {
+                    rep.model_evaluations += 1;
+                    let mr = if purpose == "local" { m.local_unseal(b.name, &unsealk, b"x", &p, &ft, &a) } else { m.public_unseal(b.name, &unsealk, b"x", &p, &ft, &a) };
+                    if mr.as_ref().ok() != Some(&msg) {
+                        rep.disagreement(&format!("c02.{}.{purpose}.suffix-model", b.name), format!("model unseal with suffix \"x\" of the implementation's token: {:?}", mr.map(|x| x.len())), replay.clone());
+                    }
+                    rep.model_evaluations += 1;
+                    let m0 = if purpose == "local" { m.local_unseal(b.name, &unsealk, b"", &p, &ft, &a) } else { m.public_unseal(b.name, &unsealk, b"", &p, &ft, &a) };
+                    if m0.is_ok() {
+                        rep.disagreement(&format!("c02.{}.{purpose}.suffix-model", b.name), "model accepts the suffixed token with the empty suffix".into(), replay.clone());
+                    }
+                }
+                rep.nontrivial(format!("{}|{purpose}|suffix", b.name));
+            }
+        }
+        prim_calls += m.prim_calls();
+    }
     rep.count_n("sampled-tokens", sampled);
     rep.model_prim_calls = prim_calls;
     rep.finish(ctx.out.as_deref());
